@@ -33,7 +33,7 @@ ID = "C20"
 RULE = (
     "Generated, kind 'chart': instance (all shapes, flexible, zero durations) "
     "x schedule prefix (history cut anywhere, incl. empty and complete) x xlim "
-    "(None or >= makespan) x colour map / job labels, optionally on a dispatcher that went through an earlier whole episode and a reset(), through "
+    "(None or >= makespan) x colour map / job labels, optionally with one job stretched by 300 (bars far narrower than a pixel), optionally on a dispatcher that went through an earlier whole episode and a reset(), through "
     "plot_gantt_chart and GanttChartCreator.plot_gantt_chart: the PolyCollections "
     "of the Axes are read back - their multiset of (x0, x1, y0, y1, colour) "
     "must equal {(start, end, 1+10m, 10+10m, colour(job))} over scheduled "
@@ -77,6 +77,7 @@ def strategy(tier):
             "via_creator": st.booleans(),
             "earlier": gen.pick([False, True, False]),
             "second_chart": gen.pick([False, False, True]),
+            "stretch": gen.pick([0, 0, 0, 300, 0, 0, 0, 0]),
         }
     )
     short = st.fixed_dictionaries(
@@ -352,6 +353,14 @@ def check_chart_axes(ctx, ax, model, n_jobs, where, xlim=None, job_labels=None, 
 
 def chart_case(case, ctx):
     inst = case["inst"]
+    if case.get("stretch"):
+        # one job takes hundreds of time units, the others one or two: bars
+        # far narrower than a pixel next to a long time axis
+        inst = dict(inst)
+        inst["durations"] = [
+            [x * case["stretch"] for x in row] if j == 0 else list(row) for j, row in enumerate(inst["durations"])
+        ]
+        ctx.label("stretched_axis")
     instance = build_instance(inst)
     d, _hist, model = dispatch_history(
         inst, instance, case["history"], case["cut"], earlier=case.get("earlier", False)
